@@ -800,7 +800,7 @@ def judge_script(job, lines, crashed, stderr=''):
 def tasks(tier):
     from .harness import Task
     ts = []
-    nq, nf = (16, 32) if tier == 'quick' else (150, 300)
+    nq, nf = (16, 32) if tier == 'quick' else (60, 120)
     for k in range(nq):
         ncmd = 2 + k % 5
         pre = (0, 2, 0, 3)[k % 4]
